@@ -47,6 +47,12 @@ import (
 // shutdown must finalize the pipeline, not race the shutdown with a restart.
 var errGracefulShutdownDuringRecovery = cerrors.New("graceful shutdown during recovery backoff")
 
+// errUserStopDuringRecovery is the analogous sentinel for a user's graceful
+// Stop that arrives while the run is parked in the recovery backoff wait (Stop
+// accepts StatusRecovering): the pipeline must end StatusUserStopped and must
+// not be started again.
+var errUserStopDuringRecovery = cerrors.New("user stop during recovery backoff")
+
 type FailureEvent struct {
 	// ID is the ID of the pipeline which failed.
 	ID    string
@@ -1627,6 +1633,13 @@ func (s *Service) runPipeline(rp *runnablePipeline) error {
 					if updateErr := s.pipelines.UpdateStatus(ctx, rp.pipeline.ID, pipeline.StatusSystemStopped, ""); updateErr != nil {
 						return updateErr
 					}
+				case cerrors.Is(recoveryErr, errUserStopDuringRecovery):
+					// The user's Stop landed during the backoff wait. Finalize as
+					// a user stop and run the cleanup tail so the entry is removed.
+					err = nil
+					if updateErr := s.pipelines.UpdateStatus(ctx, rp.pipeline.ID, pipeline.StatusUserStopped, ""); updateErr != nil {
+						return updateErr
+					}
 				default:
 					// Recovery is exhausted (MaxRetries) or itself errored.
 					s.logger.
@@ -1806,6 +1819,10 @@ func (s *Service) StartWithBackoff(ctx context.Context, rp *runnablePipeline) er
 	// concurrent restart still wins.
 	if s.isGracefulShutdown.Load() {
 		return errGracefulShutdownDuringRecovery
+	}
+	if rp.intentionalStop.Load() {
+		// The user stopped this pipeline while it was waiting to be restarted.
+		return errUserStopDuringRecovery
 	}
 
 	return s.Start(ctx, rp.pipeline.ID)
